@@ -147,7 +147,7 @@ def attr_line(I, pp, type_name: str, key: str, value: Any):
     d.factory = None
     d["__type__"] = type_name
     d[key] = value
-    outs = I.explore("pprint.PrettyPrinter._format", lambda: (pp() if callable(pp) else pp, [d, 0], {}))
+    outs = I.explore("pprint.PrettyPrinter._format", lambda: (pp() if callable(pp) else pp, [d], {"level": 0}))  # level by name: it may be keyword-only
     if len(outs) != 1:
         raise AnalysisError(f"_format forks for {type_name}.{key}: {[o.assumptions for o in outs]}")
     o = outs[0]
@@ -157,6 +157,10 @@ def attr_line(I, pp, type_name: str, key: str, value: Any):
     if len(lines) != 3:
         return "malformed", SStr([" / ".join(pai.as_sstr(x).describe() for x in lines)])
     return "line", pai.as_sstr(lines[1])
+
+
+class PrinterRaised(AnalysisError):
+    """The printer itself (the repository code, as evaluated) raises a Python exception for this input."""
 
 
 def block_lines(I, pp, type_name: str, items: list) -> list:
@@ -169,8 +173,10 @@ def block_lines(I, pp, type_name: str, items: list) -> list:
     d["__type__"] = type_name
     for k, v in items:
         d[k] = v
-    outs = I.explore("pprint.PrettyPrinter._format", lambda: (pp() if callable(pp) else pp, [d, 0], {}))
-    if len(outs) != 1 or outs[0].kind != "return":
+    outs = I.explore("pprint.PrettyPrinter._format", lambda: (pp() if callable(pp) else pp, [d], {"level": 0}))  # level by name: it may be keyword-only
+    if len(outs) == 1 and outs[0].kind == "raise":
+        raise PrinterRaised(f"_format raises {outs[0].exc} on a {type_name} holding {[k for k, _ in items]}")
+    if len(outs) != 1:
         raise AnalysisError(f"_format not evaluable on a {type_name} holding {[k for k, _ in items]}: {[(o.kind, o.exc) for o in outs]}")
     lines = list(outs[0].value)
     if len(lines) < 2 or pai.as_sstr(lines[0]) != SStr([type_name.upper()]) or pai.as_sstr(lines[-1]) != SStr(["END"]):
@@ -221,9 +227,9 @@ def dispatch_shapes(env, special: dict, olk, repeated) -> list:
         else:
             raise AnalysisError(f"no representative value for the special block {kw}")
         try:
-            lines = block_lines(I, mk, owner, [(kw, val)])
-        except AnalysisError as ex:
-            out.append((kw, False, f"not written: {ex}"))
+            lines = block_lines(I, mk, owner, [(kw, val)])  # any other AnalysisError means "cannot evaluate", not "wrong shape"
+        except PrinterRaised as ex:
+            out.append((kw, False, str(ex)))
             continue
         out.append((kw, bool(want(lines)), " / ".join(text(x) for x in lines)))
     # an object list, a singleton block, a repeated keyword
@@ -236,8 +242,8 @@ def dispatch_shapes(env, special: dict, olk, repeated) -> list:
     for kw, owner, val, want in extra:
         try:
             lines = block_lines(I, mk, owner, [(kw, val)])
-        except AnalysisError as ex:
-            out.append((kw, False, f"not written: {ex}"))
+        except PrinterRaised as ex:
+            out.append((kw, False, str(ex)))
             continue
         out.append((kw, bool(want(lines)), " / ".join(text(x) for x in lines)))
     return out
